@@ -12,6 +12,7 @@ COMMON_TB = [
 ]
 
 NOT_YET = {}
+IN_PROGRESS = {"C13", "C16"}   # being built; not claimed until their checks pass
 
 PROPS = {
     "C20": {
